@@ -404,7 +404,7 @@ func c17Universe() []numOp {
 	for _, f := range []float64{1 << 31, float64(1<<53 - 1), 0.125, 1e15 + 0.5, 1.0 / (1 << 32), 1.0 / (1 << 40), -1.0 / (1 << 32), 1 << 40, 3.0 / (1 << 34)} {
 		u = append(u, numOp{Kind: "float", F: f})
 	}
-	for _, s := range []string{"3", "-2.5", "07", "010", "0730", "-012", "0010.50", "abc", "", "1x", " 4", "25e-2", "1e3", "1E+2", "-5e-1"} {
+	for _, s := range []string{"nan", "NaN", "inf", "-Infinity", "3", "-2.5", "07", "010", "0730", "-012", "0010.50", "abc", "", "1x", " 4", "25e-2", "1e3", "1E+2", "-5e-1"} {
 		u = append(u, numOp{Kind: "str", S: s})
 	}
 	u = append(u, numOp{Kind: "nil"})
